@@ -12,7 +12,7 @@ namespace {
 template <class T> T pickv(std::initializer_list<T> l, Rng &r) { return *(l.begin() + r.below(l.size())); }
 
 enum ItemKind {
-    IT_I32 = 0, IT_U32B, IT_I64, IT_U64B, IT_BOOL, IT_MNEM, IT_TEXT, IT_DOUBLE, IT_FLOAT, IT_BLOCK, IT_SBLOCK, IT_ARRAY, IT_HEADER, IT_SMALL, IT_PUSH, IT_STRAY, IT_BIG, IT_GIANT, IT_NESTED, IT_NKINDS
+    IT_I32 = 0, IT_U32B, IT_I64, IT_U64B, IT_BOOL, IT_MNEM, IT_TEXT, IT_DOUBLE, IT_FLOAT, IT_BLOCK, IT_SBLOCK, IT_ARRAY, IT_HEADER, IT_SMALL, IT_PUSH, IT_STRAY, IT_BIG, IT_GIANT, IT_NESTED, IT_RELAYW, IT_NKINDS
 };
 enum ElemType { E_I8 = 0, E_U8, E_I16, E_U16, E_I32, E_U32, E_I64, E_U64, E_F32, E_F64, E_NTYPES };
 const size_t ELEM_SIZE[E_NTYPES] = {1, 1, 2, 2, 4, 4, 8, 8, 4, 8};
@@ -136,6 +136,49 @@ struct Run {
     bool unit_pushed = false;
     std::unique_ptr<World> inner;   // a second, independent instrument context (a module behind this mainframe), served from inside handlers
     Run(World &w_, Verdict &v_, bool c) : w(w_), v(v_), c17(c) {}
+
+    void ensure_inner() {
+        if (inner) return;
+        WorldCfg ic;
+        ic.with_flush = w.cfg.with_flush;
+        inner.reset(new World(ic));
+        inner->add_standard_commands();
+        // the module answers with binary arrays of its own, in either byte order
+        inner->add_command("ARR#?", [](World &ww) {
+            int32_t which[1] = {1};
+            SCPI_CommandNumbers(ww.ctx, which, 1, 1);
+            uint32_t d32[5];
+            uint16_t d16[7];
+            for (int j = 0; j < 5; j++) d32[j] = 0xA1B2C3D0u + (uint32_t) j * 0x01010101u;
+            for (int j = 0; j < 7; j++) d16[j] = (uint16_t) (0xE0F0u + j * 0x0101u);
+            if (which[0] & 2)
+                SCPI_ResultArrayUInt16(ww.ctx, d16, 7, (which[0] & 1) ? SCPI_FORMAT_NORMAL : SCPI_FORMAT_SWAPPED);
+            else
+                SCPI_ResultArrayUInt32(ww.ctx, d32, 5, (which[0] & 1) ? SCPI_FORMAT_NORMAL : SCPI_FORMAT_SWAPPED);
+            return SCPI_RES_OK;
+        });
+        inner->seal();
+    }
+    // the second context is served from inside the write callback of the first (a blocking transmit routine that polls
+    // its other port before it copies the bytes it was handed): armed by a `relay` item, fires at the k-th write call
+    long relay_countdown = -1;
+    int relay_which = 0;
+    void relay_from_write_callback() {
+        if (relay_countdown < 0 || v.violated) return;
+        if (relay_countdown-- > 0) return;
+        ensure_inner();
+        int which = relay_which & 3;
+        std::string body;
+        for (int j = 0; j < ((which & 2) ? 7 : 5); j++)
+            body += (which & 2) ? enc_elem_binary((uint16_t) (0xE0F0u + j * 0x0101u), E_U16, (which & 1) != 0) : enc_elem_binary(0xA1B2C3D0u + (uint32_t) j * 0x01010101u, E_U32, (which & 1) != 0);
+        std::string want = enc_block_header(body.size()) + body + line_ending();
+        size_t o0 = inner->out.size();
+        inner->input(fmt("ARR%d?\n", which));
+        std::string got = inner->out.substr(o0);
+        COUNT("fault_second_context_served_inside_write_callback");
+        if (got != want)
+            v.fail("item-bytes", "second-context-array", fmt("second context, served from inside the write callback of the first, wrote \"%s\", expected \"%s\"", c_escape(got).c_str(), c_escape(want).c_str()));
+    }
 
     // compare what one API call wrote with the model's expectation for that item
     void check_call(const std::string &what, size_t out_before, const std::string &expect_body, bool completes_item, bool starts_item) {
@@ -375,16 +418,17 @@ struct Run {
                     block_open = false;
                     break;
                 }
+                case IT_RELAYW: {
+                    relay_countdown = clampl(it.arg(1), 0, 40);
+                    relay_which = (int) clampl(it.arg(2), 0, 3);
+                    break;
+                }
                 case IT_NESTED: {
                     // the handler relays a message to another context and reads its answer; that context frames its own response
-                    if (!inner) {
-                        WorldCfg ic;
-                        ic.with_flush = w.cfg.with_flush;
-                        inner.reset(new World(ic));
-                        inner->add_standard_commands();
-                        inner->seal();
-                    }
-                    static const char *relay[][2] = {{"*OPC?;*OPC?\n", "1;1\r\n"}, {"*OPC?\r\n", "1\r\n"}, {"XYZ;*OPC?\n", "1\r\n"}, {"*OPC\n", ""}};
+                    ensure_inner();
+                    const std::string le = line_ending();
+                    const std::string r0 = "1;1" + le, r1 = "1" + le;
+                    const char *relay[][2] = {{"*OPC?;*OPC?\n", r0.c_str()}, {"*OPC?\r\n", r1.c_str()}, {"XYZ;*OPC?\n", r1.c_str()}, {"*OPC\n", ""}};
                     size_t k = (size_t) clampl(it.arg(1), 0, 3);
                     size_t o0 = inner->out.size();
                     int f0 = inner->flushes;
@@ -528,8 +572,11 @@ void execute_output(const Plan &plan, Verdict &v, bool c17) {
     if (!cfg.with_flush) COUNT("fault_no_flush_callback_installed");
     if (cfg.wr_mode) COUNT("fault_write_short_or_failed");
     if (cfg.flush_err) COUNT("fault_flush_failed");
+    set_line_ending((int) plan.k("line_ending", 0));   // configuration `user` only: the terminator is a run-time setting
+    const std::string le = line_ending();
     World w(cfg);
     Run run(w, v, c17);
+    w.write_hook = [&run](World &) { run.relay_from_write_callback(); };
     // collect handler scripts
     for (const Op &op : plan.ops) {
         if (op.kind == "h") {
@@ -668,7 +715,7 @@ void execute_output(const Plan &plan, Verdict &v, bool c17) {
                     exp += c.payload;
                     any = true;
                 }
-                if (any) exp += "\r\n";
+                if (any) exp += le;
                 int fl = (any && cfg.with_flush) ? 1 : 0;
                 if (mask == 0) first_expect = exp;
                 if (m.out == exp) {
@@ -691,9 +738,9 @@ void execute_output(const Plan &plan, Verdict &v, bool c17) {
                 for (auto &c : cl) units += c.cls == 1 ? "Y" : c.cls == 0 ? "N" : "?";
                 const char *rule = "framing";
                 std::string sig = units;
-                if (m.out.find(";\r\n") != std::string::npos || m.out.find(";;") != std::string::npos || (!m.out.empty() && m.out[0] == ';' && units.find('?') == std::string::npos))
+                if (m.out.find(";" + le) != std::string::npos || m.out.find(";;") != std::string::npos || (!m.out.empty() && m.out[0] == ';' && units.find('?') == std::string::npos))
                     sig += " dangling-separator";
-                else if (!m.out.empty() && (m.out.size() < 2 || m.out.substr(m.out.size() - 2) != "\r\n"))
+                else if (!m.out.empty() && (m.out.size() < le.size() || m.out.substr(m.out.size() - le.size()) != le))
                     sig += " missing-terminator";
                 v.fail(rule, sig, fmt("message \"%s\" wrote \"%s\" with %d flush(es); units respond [%s], expected e.g. \"%s\"", c_escape(m.text).substr(0, 120).c_str(),
                                       c_escape(m.out).substr(0, 200).c_str(), m.flushes, units.c_str(), c_escape(first_expect).substr(0, 200).c_str()));
@@ -833,6 +880,7 @@ void generate_output(Rng &r, const GenOpts &g, Plan &p, bool c17) {
     if (r.chance(1, 4)) p.knob["wr_mode"] = r.range(1, 3);
     if (r.chance(1, 8)) p.knob["flush_err"] = 1;
     if (r.chance(1, 12)) p.knob["no_flush_cb"] = 1;
+    if (g.config == "user" && r.chance(1, 2)) p.knob["line_ending"] = r.range(1, 2);
     bool lazy_sep_switch = g.avoids("failing_query_after_responder");
     long nh = r.range(1, 7);
     std::vector<int> kinds;   // 0 good query, 1 empty query ok, 2 failing query silent, 3 emits then fails, 4 pushes error and succeeds, 5 command, 6 failing command
@@ -851,6 +899,7 @@ void generate_output(Rng &r, const GenOpts &g, Plan &p, bool c17) {
         for (long j = 0; j <= ni; j++) {
             if (j == push_at) p.ops.push_back(Op("it", {IT_PUSH, -(long) r.range(200, 299)}));
             if (!c17 && r.chance(1, 25)) p.ops.push_back(Op("it", {IT_NESTED, (long) r.below(4)}));
+            if (c17 && r.chance(1, 10)) p.ops.push_back(Op("it", {IT_RELAYW, (long) (r.chance(1, 2) ? r.below(4) : r.below(30)), (long) r.below(4)}));
             if (j < ni) gen_item(r, p, c17, c17 && r.chance(1, 3));
             if (j < ni && c17 && r.chance(1, 5)) p.ops.push_back(Op("it", {IT_STRAY}, rand_bytes(r, r.range(1, 6))));
             if (j < ni && c17 && r.chance(1, 12)) {
@@ -909,7 +958,7 @@ void exec_c17(const Plan &p, Verdict &v) { execute_output(p, v, true); }
 const Property C06 = {
     "C06",
     "Responses are framed: ';' between units, ',' between items, one terminator",
-    {"malloc"},
+    {"malloc", "user"},
     gen_c06,
     exec_c06,
     {"probe_query_succeeds_with_zero_items", "probe_query_fails_after_emitting", "fault_handler_returns_err", "fault_error_inside_handler", "fault_write_short_or_failed",
@@ -925,7 +974,7 @@ const Property C17 = {
     gen_c17,
     exec_c17,
     {"arrays_normal", "arrays_swapped", "arrays_ascii", "blocks_streamed", "probe_zero_length_piece", "fault_overlength_block_data", "probe_block_left_incomplete",
-     "probe_empty_binary_array", "probe_three_digit_block_length", "probe_header_nine_digits", "block_headers_only", "probe_data_after_complete_block", "probe_block_of_64k_or_more", "probe_array_of_nearly_1e9_bytes", "probe_array_source_not_16_byte_aligned"},
+     "probe_empty_binary_array", "probe_three_digit_block_length", "probe_header_nine_digits", "block_headers_only", "probe_data_after_complete_block", "probe_block_of_64k_or_more", "probe_array_of_nearly_1e9_bytes", "probe_array_source_not_16_byte_aligned", "fault_second_context_served_inside_write_callback"},
     "handler scripts emitting arrays of all ten element types in NORMAL/SWAPPED/ASCII (0..300 elements, boundary values), blocks one-shot and streamed with seeded piece "
     "sizes incl. zero-length pieces, incomplete and over-length data at any point, header-only calls up to 10^9-1, items after complete/incomplete blocks; every API call's "
     "bytes are compared with an independent shift-based encoder, over-length data must be refused. distinct_nontrivial = distinct canonical trace hashes.",
